@@ -211,7 +211,7 @@ func cmdRun(prop, tier, only string, verbose bool, workers int, solverBin string
 				switch out.kind {
 				case "panic":
 					tr = append(tr, "panic")
-				case "done":
+				case "done", "istop":
 					tr = append(tr, "end")
 				case "unsupported", "bound":
 					tr = append(tr, "#interp:"+out.kind+":"+out.msg)
